@@ -105,7 +105,9 @@ K4_Failed(ret, faulty) ==
     (IF ret = "dead" /\ ~faulty THEN {"K4_ServiceDown"} ELSE {})
 
 Final(blk, h) == HeadNum(blk, h) - FinOff
-CaughtUp(blk, h, db) == db.nb > Final(blk, h)
+(* blocks below the first deployment block hold no events: a cursor below it stands for it *)
+EffNb(db) == IF db.nb < MinDeploy THEN MinDeploy ELSE db.nb
+CaughtUp(blk, h, db) == EffNb(db) > Final(blk, h)
 K5_LostA(all, fin, db) ==
     IF db.nb > fin /\ \E i \in 1..Len(all) : LET x == all[i] IN
           /\ x.num <= fin
